@@ -248,7 +248,7 @@ var untrustedSpellings = []spelling{
 	{"nul-like-space", func(h string) string { return h + " .evil.com" }, isName},
 }
 
-var initialHosts = []string{"a.com", "a.com", "kiosk.test", "skate.example", "A.Com", "a.com:8080", "sub.a.com", "[::1]", "[::1]:8080", "127.0.0.1", "a.com.", "localhost"}
+var initialHosts = []string{"a.com", "a.com", "example.com", "kiosk.test", "skate.example", "A.Com", "a.com:8080", "sub.a.com", "[::1]", "[::1]:8080", "127.0.0.1", "a.com.", "localhost"}
 
 var statuses = []int{301, 302, 303, 307, 308}
 
@@ -274,6 +274,8 @@ type chainCase struct {
 	LowerNames  bool   `json:"lower_case_header_names"`
 	Userinfo    bool   `json:"secret_in_url_userinfo"`
 	SetCookieFn bool   `json:"cookie_via_setcookie"`
+	Wire        string `json:"request_parsed_from_wire,omitempty"` // read, read+cookie-api, copyto: headers come from Request.Read of raw bytes
+	Triple      string `json:"prefix_triple,omitempty"`            // H -> trusted T -> F with F derived from T[:len(H)]
 	Token       string `json:"token"`
 }
 
@@ -357,7 +359,29 @@ func genCase(r rng, idx int) chainCase {
 	for k := 0; k < nh; k++ {
 		c.Hops = append(c.Hops, genHop(r, hn, k))
 	}
-	if c.Body == "bytes" && c.Method == "POST" && r.Intn(3) == 0 {
+	// Prefix-related triple: hop 0 goes to a trusted sub-domain T of the initial host H, hop 1 from T to a
+	// foreign host F built from the first len(H) bytes of T. A trust anchor that is not kept apart from the
+	// request's (re-used, re-parsed) URI would by then read T[:len(H)] and take F for the initial host.
+	if isName(hn) && nh >= 2 && r.Intn(5) == 0 {
+		t := pick(r, []string{"api.", "sub.", "a.b.", "www1.", "cdn-7."}) + asciiLower(hn)
+		cut := t[:len(hn)]
+		f := pick(r, []string{cut, cut, "x." + cut, "deep.er." + cut})
+		tp, fp := pick(r, []string{"", "", ":81"}), pick(r, []string{"", "", ":8080"})
+		c.Triple = fmt.Sprintf("H=%s T=%s F=%s", hn, t, f)
+		c.Hops[0] = hop{Status: pick(r, statuses), Location: "http://" + t + tp + "/t0", Form: "abs", Class: "T:sub-for-prefix-triple"}
+		k := 1
+		if nh >= 3 && r.Intn(3) == 0 { // a relative hop on T in between
+			c.Hops[1] = hop{Status: pick(r, statuses), Location: "/on-t", Form: "/abs…", Class: "same"}
+			k = 2
+		}
+		form := pick(r, []string{"http://%s/f", "//%s/f", "HTTP://%s/f", "http://%s"})
+		c.Hops[k] = hop{Status: pick(r, statuses), Location: fmt.Sprintf(form, f+fp), Form: "abs", Class: "U:prefix-of-trusted-host"}
+	}
+	// Headers parsed from the wire (a proxy forwarding a received request) instead of built with Set/SetCookie.
+	if strings.HasSuffix(c.API, ".DoRedirects") && !c.Userinfo && r.Intn(4) == 0 {
+		c.Wire = pick(r, []string{"read", "read", "read+cookie-api", "copyto"})
+	}
+	if c.Body == "bytes" && c.Method == "POST" && c.Wire == "" && r.Intn(3) == 0 {
 		c.Body = "stream" // chunked stream + Trailer: only where the first answer drops the body
 		c.Hops[0].Status = 303
 	}
@@ -430,29 +454,12 @@ func runCase(c chainCase) (o outcome) {
 			if c.NoNormalize {
 				req.Header.DisableNormalizing()
 			}
-			req.SetRequestURI(c.InitialURL)
-			req.Header.SetMethod(c.Method)
-			for _, s := range sensitives {
-				v := s.prefix + c.Token
-				switch {
-				case s.name == "Cookie" && c.SetCookieFn:
-					req.Header.SetCookie("sid", v)
-				case s.name == "Cookie":
-					req.Header.Set(hdrName(c, s.name), "sid="+v)
-				case s.name == "Authorization":
-					req.Header.Set(hdrName(c, s.name), "Bearer "+v)
-				default:
-					req.Header.Set(hdrName(c, s.name), v)
+			if c.Wire != "" {
+				if werr := wireRequest(c, req); werr != nil {
+					panic("c20 harness: raw request does not parse: " + werr.Error())
 				}
-			}
-			switch c.Body {
-			case "bytes":
-				req.Header.SetContentType("application/x-c20")
-				req.SetBodyString("body-" + c.Token)
-			case "stream":
-				req.Header.SetContentType("application/x-c20")
-				req.Header.Set("Trailer", "X-Sum")
-				req.SetBodyStream(&plainReader{strings.NewReader("streamed-" + c.Token)}, -1)
+			} else {
+				builtRequest(c, req)
 			}
 			if c.API == "Client.DoRedirects" {
 				err = cl.DoRedirects(req, resp, c.Max)
@@ -480,6 +487,78 @@ func runCase(c chainCase) (o outcome) {
 	defer n.mu.Unlock()
 	o.Reqs, o.Dials, o.TLS, o.Junk = n.reqs, n.dials, n.tls, n.garbage
 	return o
+}
+
+// builtRequest: the caller builds the request with the setter API.
+func builtRequest(c chainCase, req *fasthttp.Request) {
+	req.SetRequestURI(c.InitialURL)
+	req.Header.SetMethod(c.Method)
+	for _, s := range sensitives {
+		v := s.prefix + c.Token
+		switch {
+		case s.name == "Cookie" && c.SetCookieFn:
+			req.Header.SetCookie("sid", v)
+		case s.name == "Cookie":
+			req.Header.Set(hdrName(c, s.name), "sid="+v)
+		case s.name == "Authorization":
+			req.Header.Set(hdrName(c, s.name), "Bearer "+v)
+		default:
+			req.Header.Set(hdrName(c, s.name), v)
+		}
+	}
+	switch c.Body {
+	case "bytes":
+		req.Header.SetContentType("application/x-c20")
+		req.SetBodyString("body-" + c.Token)
+	case "stream":
+		req.Header.SetContentType("application/x-c20")
+		req.Header.Set("Trailer", "X-Sum")
+		req.SetBodyStream(&plainReader{strings.NewReader("streamed-" + c.Token)}, -1)
+	}
+}
+
+// wireRequest: the request is what Request.Read makes of raw bytes (a proxy forwarding a request it
+// received), optionally copied with CopyTo or looked at through the cookie API. Nothing is Set by hand:
+// the URL is Host header + request line, exactly as parsed.
+func wireRequest(c chainCase, req *fasthttp.Request) error {
+	var b strings.Builder
+	fmt.Fprintf(&b, "%s /start HTTP/1.1\r\n%s: %s\r\n", c.Method, hdrName(c, "Host"), c.InitialHost)
+	for _, s := range sensitives {
+		v := s.prefix + c.Token
+		switch s.name {
+		case "Cookie":
+			v = "sid=" + v + "; theme=dark"
+		case "Authorization":
+			v = "Bearer " + v
+		}
+		fmt.Fprintf(&b, "%s: %s\r\n", hdrName(c, s.name), v)
+	}
+	body := ""
+	if c.Body == "bytes" {
+		body = "body-" + c.Token
+		fmt.Fprintf(&b, "%s: application/x-c20\r\n%s: %d\r\n", hdrName(c, "Content-Type"), hdrName(c, "Content-Length"), len(body))
+	}
+	b.WriteString("\r\n" + body)
+	target := req
+	var tmp *fasthttp.Request
+	if c.Wire == "copyto" {
+		tmp = fasthttp.AcquireRequest()
+		defer fasthttp.ReleaseRequest(tmp)
+		if c.NoNormalize {
+			tmp.Header.DisableNormalizing()
+		}
+		target = tmp
+	}
+	if err := target.Read(bufio.NewReader(strings.NewReader(b.String()))); err != nil {
+		return err
+	}
+	switch c.Wire {
+	case "read+cookie-api":
+		_ = req.Header.Cookie("sid") // collects the Cookie field out of the generic header list
+	case "copyto":
+		tmp.CopyTo(req)
+	}
+	return nil
 }
 
 type plainReader struct{ r *strings.Reader }
@@ -523,6 +602,15 @@ func judge(c chainCase, o outcome, initialHostname string, ev func(string, int))
 	// header-name flavour under which nothing is stripped at all. Header names go into the text.
 	namesVerbatim := c.NoNormalize && c.LowerNames
 	userinfoB64 := base64.StdEncoding.EncodeToString([]byte("uINFO-" + c.Token + ":pw"))
+	initialCarried := 0 // how many of the six secrets the first request carried
+	if len(o.Reqs) > 0 {
+		t0 := headText(o.Reqs[0])
+		for _, sv := range sensitives {
+			if strings.Contains(t0, sv.prefix+c.Token) {
+				initialCarried++
+			}
+		}
+	}
 	for k, s := range o.Reqs {
 		dialTrusted := refTrusted(s.Dial, initialHostname)
 		hostHdr := s.get("Host")
@@ -546,8 +634,13 @@ func judge(c chainCase, o outcome, initialHostname string, ev func(string, int))
 				key, where = "leak:"+spellingClassOf(c, k, hostHdr), fmt.Sprintf("with Host header %q (dialled %q)", hostHdr, s.Dial)
 			}
 			if key != "" {
-				if namesVerbatim {
-					key = "leak:lower-case-header-names-with-normalizing-disabled"
+				if initialCarried > len(leaked) {
+					// some of the secrets were stripped, these were not: a deletion defect, not a trust decision
+					key = "leak-partial-strip:" + flavourOf(c) + ":" + strings.ToLower(strings.Join(leaked, "+"))
+					if namesVerbatim && c.Wire == "" && len(leaked) == 5 && !strings.Contains(key, ":cookie+") && !strings.HasSuffix(key, "+cookie") {
+						// the finding of the first round (fixed since): everything but the specially stored Cookie survives
+						key = "leak:lower-case-header-names-with-normalizing-disabled"
+					}
 				}
 				vs = append(vs, violation{key, fmt.Sprintf("request #%d %s (initial host %q) carries the caller's %s", k, where, initialHostname, strings.Join(leaked, ", "))})
 			}
@@ -616,9 +709,21 @@ func judge(c chainCase, o outcome, initialHostname string, ev func(string, int))
 	return vs
 }
 
+// flavourOf: how the request's headers came to be (one word per root-cause relevant property).
+func flavourOf(c chainCase) string {
+	f := "built"
+	if c.Wire != "" {
+		f = "wire"
+	}
+	if c.NoNormalize && c.LowerNames {
+		f += "+names-verbatim"
+	}
+	return f
+}
+
 func classOf(c chainCase) string {
 	var b strings.Builder
-	fmt.Fprintf(&b, "%s|%s|%s|%v%v%v|n=%d", c.API, c.Method, c.Body, c.NoNormalize, c.LowerNames, c.Userinfo, len(c.Hops))
+	fmt.Fprintf(&b, "%s|%s|%s|%v%v%v|%s|%v|n=%d", c.API, c.Method, c.Body, c.NoNormalize, c.LowerNames, c.Userinfo, c.Wire, c.Triple != "", len(c.Hops))
 	for i, h := range c.Hops {
 		if i == 4 {
 			break
@@ -646,9 +751,10 @@ func (m *mix) Intn(n int) int {
 func TestC20(t *testing.T) {
 	r := mon.Start(t, "C20")
 	defer r.Finish()
-	r.Rule("case = initial URL (12 host spellings incl. ports, IPv6, upper case, trailing dot, optional userinfo) + method/body + chain of 1-8 (sometimes 12-21) scripted redirects, each with status 301/302/303/307/308 and a Location that is relative (10 forms) or absolute/scheme-relative (8 forms) to a trusted spelling (same, upper, port, userinfo, sub-domains) or an untrusted one (25 look-alike/trick spellings); run through Client.DoRedirects, HostClient.DoRedirects, Get, Post with the six sensitive headers set to per-header secrets; distinct = (api, method, body, flavours, first four hops as status+form+spelling class); non-trivial = the chain contains an absolute Location")
+	r.Rule("case = initial URL (12 host spellings incl. ports, IPv6, upper case, trailing dot, optional userinfo) + method/body + chain of 1-8 (sometimes 12-21) scripted redirects, each with status 301/302/303/307/308 and a Location that is relative (10 forms) or absolute/scheme-relative (8 forms) to a trusted spelling (same, upper, port, userinfo, sub-domains) or an untrusted one (25 look-alike/trick spellings); one chain in five starts with a prefix-related triple (H -> trusted sub-domain T -> foreign F = T[:len(H)], also with leading labels and ports); run through Client.DoRedirects, HostClient.DoRedirects, Get, Post with the six sensitive headers set to per-header secrets, the initial request either built with Set/SetCookie or (one DoRedirects case in four) parsed from raw bytes with Request.Read, optionally copied with CopyTo or touched through the cookie API; distinct = (api, method, body, flavours, first four hops as status+form+spelling class); non-trivial = the chain contains an absolute Location")
 	r.Assume("'host' of a request = address handed to the Dial hook and the Host header received by the peer; trusted = equal to the initial URL's hostname (net/url) or a dot-boundary suffix match, ASCII case-insensitive, port and brackets ignored")
 	r.Assume("a secret is 'sent' when its token appears in the request line or any header received by the raw tag server")
+	r.Assume("key discipline: a secret arriving at an untrusted host while other secrets of the same request were stripped is a deletion defect (leak-partial-strip:<how the request was made>:<headers>); all secrets arriving is a trust-decision defect (leak:<spelling class>)")
 	r.Assume("Get/Post have no configured redirect limit in the property: only DoRedirects is judged for the limit")
 	r.Assume("only the method change is demanded for POST on 301/302 (fasthttp keeps the body; the property does not forbid it)")
 	n := r.N(20_000, 1_000_000)
@@ -686,6 +792,23 @@ func TestC20(t *testing.T) {
 			if o.Err != "" {
 				ev("calls_returning_error", 1)
 			}
+			if c.Triple != "" {
+				ev("prefix_triple_chains", 1)
+				for j, h := range c.Hops {
+					if h.Class == "U:prefix-of-trusted-host" && len(o.Reqs) > j+1 && len(o.Reqs) > j && refTrusted(o.Reqs[j].Dial, u.Hostname()) {
+						ev("prefix_triple_foreign_host_reached_from_trusted_subdomain", 1)
+					}
+				}
+			}
+			if c.Wire != "" {
+				ev("wire_parsed_initial_requests", 1)
+				for k, rq := range o.Reqs {
+					if k > 0 && !refTrusted(rq.Dial, u.Hostname()) {
+						ev("wire_parsed_chain_reached_untrusted_host", 1)
+						break
+					}
+				}
+			}
 			vs := judge(c, o, u.Hostname(), ev)
 			if r.WantSample() && nontrivial && len(o.Reqs) >= 3 {
 				r.Sample(map[string]any{"case": i, "chain": c, "outcome": o})
@@ -712,5 +835,7 @@ func TestC20(t *testing.T) {
 		r.Require("followups_of_303_checked", n/50)
 		r.Require("followups_of_post_301_302_checked", n/200)
 		r.Require("redirect_limit_reached", n/200)
+		r.Require("prefix_triple_foreign_host_reached_from_trusted_subdomain", n/100)
+		r.Require("wire_parsed_chain_reached_untrusted_host", n/50)
 	}
 }
